@@ -353,7 +353,7 @@ def oracle_C08(scen, m, o, reporter):
             if got and scen.mode == "fork" and got[0][0] == "0":
                 errs.append(f"test {tp}: test code ran in the runner's process in forking mode")
             # the tally is the last phase: expectations declared by the teardown (and the setup) are tallied too
-            if completes and status_of(o) in ("0", "1") and t.ctx and any(a in ("MF", "MP") for a in t.setup + t.teardown):
+            if completes and status_of(o) in ("0", "1") and (any(a in ("MG", "ML") for a in t.body) or (t.ctx and any(a in ("MF", "MP") for a in t.setup + t.teardown))):
                 obs = per_obs.get(tp, [0, 0])
                 if obs[0] != tt[4]:
                     errs.append(f"test {tp}: {obs[0]} failures reported, but the expectations its setup, body and teardown declare leave {tt[4]} at a tally that comes after the teardown")
@@ -368,7 +368,8 @@ def check_C08(ctx):
     bench = Bench(ctx)
     scens = []
     # systematic fixture combinations x outcomes
-    outcomes = {"pass": ["P"], "fail": ["F", "P"], "skip": ["S", "P"], "die": ["P", "K11", "P"], "exit": ["E"], "mock": ["MF", "MP"]}
+    outcomes = {"pass": ["P"], "fail": ["F", "P"], "skip": ["S", "P"], "die": ["P", "K11", "P"], "exit": ["E"], "mock": ["MF", "MP"],
+                "learning": ["MG", "MF", "MP"], "loose": ["ML", "MF"]}      # the tally is made whatever the mock mode the test ends in
     for su in (0, 1):
         for td in (0, 1):
             for ctxv in (0, 1):
@@ -389,6 +390,31 @@ def check_C08(ctx):
         scens.append(Scen(tree, mode=mode))
     dis, orf = explore(ctx, bench, scens, ["text"], oracle_C08, "C08", check_events=True)
     report(ctx, bench, dis, orf, oracle_C08, "C08")
+    # a test whose body runs another suite in its own process (as cgreen's own tests of the runner do): both the outer and the
+    # inner test get their own fixtures, once each, in order (judged by the oracle alone; the model has no nested runs)
+    nexe = compile_harness(ctx, bench.impl, "nested_run", ["nested_run.c"])
+    nshown = 0
+    for mode in ("fork", "inproc", "single"):
+        for inner in ("single", "suite"):
+            for fx in ("ctx", "suitefix", "both"):
+                log = os.path.join(ctx.work, f"nested-{mode}-{inner}-{fx}.log")
+                e = dict(os.environ); e.pop("CGREEN_NO_FORK", None)
+                try:
+                    subprocess.run([nexe, mode, inner, fx, log], stdout=subprocess.PIPE, stderr=subprocess.PIPE, env=e, timeout=60)
+                except subprocess.TimeoutExpired:
+                    pass
+                evs = [l.split(" ")[1] for l in open(log).read().split("\n") if " " in l] if os.path.exists(log) else []
+                su, sd = (["suite_setup"], ["suite_teardown"]) if fx != "ctx" else ([], [])
+                cs, cd = (["outer_setup"], ["outer_teardown"]) if fx == "ctx" else ([], [])      # a suite's own fixtures take the place of the context's
+                want = su + cs + ["outer_body_begin", "inner_setup", "inner_body", "inner_teardown", "outer_body_end"] + cd + sd
+                if mode != "single": want += su + cs + ["plain_body"] + cd + sd
+                if evs != want and nshown < 4:
+                    nshown += 1
+                    i = next((i for i, (x, y) in enumerate(zip(evs, want)) if x != y), min(len(evs), len(want)))
+                    ctx.violation(f"[C08] a test that runs another suite in its own process ({mode}; inner suite through {'run_single_test' if inner == 'single' else 'run_test_suite, CGREEN_NO_FORK'}; outer fixtures: {fx}): "
+                                  f"event #{i} is {evs[i] if i < len(evs) else 'missing'}, expected {want[i] if i < len(want) else 'nothing more'}; all events: {evs}",
+                                  f"harness/nested_run {mode} {inner} {fx} <logfile>", found_input=True, facts={"nested_run": True, "mode": mode})
+    ctx.coverage["nested_runs"] = 18
     ctx.coverage["samples"] = sample_of(scens)
     ctx.coverage["evaluations"] = ctx.coverage["correspondence"]["cases"]
     ctx.coverage["distinct_nontrivial"] = len({s.text() for s in scens})
@@ -735,6 +761,28 @@ def check_C13(ctx):
             shown += 1
             ctx.violation("[C13] " + "; ".join(errs[:3]), "# the same suite under the three execution modes (text reporter)\n" + scens[a].text() + "\n" + scens[b].text(), found_input=True,
                           facts={"mode": "inproc"})
+    # the same three modes as the CUTE reporter shows them: the status lines of every test (its '#failure' line is the only place
+    # a message appears in) are the same in every mode
+    def cute_view(o):
+        per, cur = {}, None
+        for l in impl_proj(o, "cute"):
+            k, _, name = l.partition(" ")
+            if k == "starting": cur = name; per[name] = []
+            elif k in ("success", "failure", "error") and cur is not None and name == cur: per[name].append(k)
+        return per
+    cobs = bench.run_many([(s.text(), "cute") for s in scens])
+    for a, b, singles in trip:
+        if status_of(cobs[a]) not in ("0", "1") or status_of(cobs[b]) not in ("0", "1"):
+            continue
+        va, vb = cute_view(cobs[a]), cute_view(cobs[b])
+        errs = [f"test {n}: CUTE shows {va[n]} forked and {vb.get(n)} with CGREEN_NO_FORK" for n in va if va[n] != vb.get(n)]
+        for name, idx in singles:
+            vs = cute_view(cobs[idx])
+            if status_of(cobs[idx]) in ("0", "1") and vs.get(name) != va.get(name):
+                errs.append(f"test {name}: CUTE shows {va.get(name)} forked and {vs.get(name)} through run_single_test")
+        if errs and shown < 8:
+            shown += 1
+            ctx.violation("[C13] " + "; ".join(errs[:3]), "# the same suite under the three execution modes (CUTE reporter)\n" + scens[a].text() + "\n" + scens[b].text(), found_input=True, facts={"mode": "inproc", "rep": "cute"})
     # settings made outside any test - by a suite's fixture that the reporting process runs around a sub-suite, or by the
     # program before the run - must not make the modes differ either (not modelled: the three modes are compared with each other)
     outside = []
@@ -1515,6 +1563,20 @@ def gen_bind_tu(rng, nfuncs):
             if not d:
                 calls.append(f'  {{ intptr_t got = -1; npass = nfail = 0; expect(fn_{k}, will_capture_parameter({a}, got)); fn_{k}({callargs}); clear_mocks(); printf("%d %d %s\\n", npass, nfail, got == {vals[j]} ? "ok" : "wrong"); }}')
                 expected.append((f"fn_{k} arity {n}: will_capture_parameter({a}) at position {j}", "0 0 ok", snippet))
+        # an output-parameter clause for each (non-double) position: the bytes arrive, whatever the reporter's counters say about
+        # earlier tests; and a when() written after it in the same expect() is applied all the same
+        for j, (a, d) in enumerate(args):
+            if d: continue
+            cargs = ", ".join("(intptr_t)&buf" if i == j else (f"{v}.5" if dd else str(v)) for i, (v, (aa, dd)) in enumerate(zip(vals, args)))
+            calls.append(f'  {{ static int v = 4711; int buf = 0; npass = nfail = 0; expect(fn_{k}, will_set_contents_of_parameter({a}, &v, sizeof(v))); fn_{k}({cargs}); clear_mocks(); printf("%d %d %s\\n", npass, nfail, buf == 4711 ? "written" : "untouched"); }}')
+            expected.append((f"fn_{k} arity {n}: will_set_contents_of_parameter({a}, ...) at position {j}", "0 0 written", snippet))
+            others = [(i, aa) for i, (aa, dd) in enumerate(args) if i != j and not dd]
+            if others:
+                i2, a2 = others[rng.randrange(len(others))]
+                for right in (True, False):
+                    want_v = vals[i2] if right else vals[i2] + 1
+                    calls.append(f'  {{ static int v = 4711; int buf = 0; npass = nfail = 0; expect(fn_{k}, will_set_contents_of_parameter({a}, &v, sizeof(v)), when({a2}, is_equal_to({want_v}))); fn_{k}({cargs}); clear_mocks(); printf("%d %d -\\n", npass, nfail); }}')
+                    expected.append((f"fn_{k} arity {n}: when({a2}, ...) written after will_set_contents_of_parameter({a}, ...), the argument {'matches' if right else 'does not match'}", "1 0 -" if right else "0 1 -", snippet))
         calls.append(f'  npass = nfail = 0; expect(fn_{k}, when(no_such_parameter, is_equal_to(1))); fn_{k}({callargs}); clear_mocks(); printf("%d %d -\\n", npass, nfail);')
         expected.append((f"fn_{k} arity {n}: clause naming an absent parameter", "0 1 -", snippet))
         near = (args[rng.randrange(n)][0] + rng.choice(["x", "_", "0"])) if n and rng.random() < 0.6 else "no_such_parameter"
@@ -1523,7 +1585,8 @@ def gen_bind_tu(rng, nfuncs):
         expected.append((f"fn_{k} arity {n}: will_set_contents_of_parameter({near}, ...) naming an absent parameter", "0 1 -", snippet))
         calls.append(f'  {{ intptr_t got = -1; npass = nfail = 0; expect(fn_{k}, will_capture_parameter({near}, got)); fn_{k}({callargs}); clear_mocks(); printf("%d %d %s\\n", npass, nfail > 0, got == -1 ? "untouched" : "written"); }}')
         expected.append((f"fn_{k} arity {n}: will_capture_parameter({near}, ...) naming an absent parameter", "0 1 untouched", snippet))
-    out.append("int main(void) {\n  TestReporter *reporter = create_reporter();\n  reporter->assert_true = &capture;\n  setup_reporting(reporter);\n  current_test = &dummy;\n  setvbuf(stdout, NULL, _IONBF, 0);")
+    out.append("int main(void) {\n  TestReporter *reporter = create_reporter();\n  reporter->assert_true = &capture;\n  setup_reporting(reporter);\n  current_test = &dummy;\n  setvbuf(stdout, NULL, _IONBF, 0);\n"
+               "  /* the reporter's counters as a test finds them when earlier tests of its suite and earlier suites have failed */\n  reporter->failures = 2; reporter->total_failures = 5; reporter->passes = 1;")
     out += calls
     out.append("  return 0;\n}")
     return "\n".join(out) + "\n", expected
